@@ -8,6 +8,16 @@ Definition idle (c : rctx) : Prop := r_pbool c = None /\ r_pfield c = false.
 Lemma idle_eta c : idle c -> mkR (r_last c) (r_stack c) None false = c.
 Proof. destruct c as [a b d e]. unfold idle. cbn. intros [-> ->]. reflexivity. Qed.
 
+(* read_field_begin (compact) first drops the pending bool field announcement (fix F-09g); a no-op when none is pending *)
+Lemma clear_pfield_nop b c : r_pfield c = false -> clear_pfield (mkS b c) = mkS b c.
+Proof. destruct c as [a d e f]. cbn. intros ->. reflexivity. Qed.
+Lemma clear_pfield_eq b c : clear_pfield (mkS b c) = mkS b (mkR (r_last c) (r_stack c) (r_pbool c) false).
+Proof. reflexivity. Qed.
+Lemma clear_pfield_id s : r_pfield (rc s) = false -> clear_pfield s = s.
+Proof. destruct s as [b c]. apply clear_pfield_nop. Qed.
+Lemma clear_pfield_buf s : rbuf (clear_pfield s) = rbuf s.
+Proof. reflexivity. Qed.
+
 Lemma idle_r0 : idle r0.
 Proof. split; reflexivity. Qed.
 
@@ -181,7 +191,7 @@ Qed.
 Lemma r_field_begin_compact_nonbool ct ty delta r' rcx :
   ttype_of_ctype ct = Some ty -> ty <> TStop ->
   (ctype_code ct =? ctype_code CBooleanTrue) = false -> (ctype_code ct =? ctype_code CBooleanFalse) = false ->
-  0 <= delta < 15 ->
+  0 <= delta < 15 -> r_pfield rcx = false ->
   r_field_begin PCompact (mkS (z2b (delta * 16 + ctype_code ct) :: r') rcx) =
     if negb (delta =? 0) then
       Ok ((ty, Some (wrap_s 16 (r_last rcx + delta))), mkS r' (rlast_upd PCompact (wrap_s 16 (r_last rcx + delta)) rcx))
@@ -189,8 +199,8 @@ Lemma r_field_begin_compact_nonbool ct ty delta r' rcx :
       let* (id, s) := r_i16 PCompact (mkS r' rcx) in
       Ok ((ty, Some id), set_rc s (rlast_upd PCompact id (rc s))).
 Proof.
-  intros Ht Hns H1 H2 Hd. pose proof (ctype_code_range ct) as Hc.
-  cbn [r_field_begin]. rewrite r_byte_rt by lia. cbn [bind].
+  intros Ht Hns H1 H2 Hd Hpf. pose proof (ctype_code_range ct) as Hc.
+  cbn [r_field_begin]. rewrite (clear_pfield_nop _ _ Hpf). rewrite r_byte_rt by lia. cbn [bind].
   replace ((delta * 16 + ctype_code ct) mod 16) with (ctype_code ct) by lia.
   replace ((delta * 16 + ctype_code ct) / 16) with delta by lia.
   rewrite H1, H2. rewrite ctype_of_code_code, Ht. cbn [bind].
@@ -202,12 +212,12 @@ Lemma w_field_ok p ty id c :
   (p = PCompact -> ty <> TBool) -> ty <> TStop -> elem_ttype_ok ty = true -> in_s 16 id -> w_pend c = None ->
   (p = PCompact -> in_s 16 (w_last c)) ->
   exists ss, w_field_begin p ty id c = Ok (ss, wlast_upd p id c) /\ (1 <= length (flat ss))%nat /\
-  forall r rcx, (p = PCompact -> r_last rcx = w_last c) ->
+  forall r rcx, (p = PCompact -> r_last rcx = w_last c) -> r_pfield rcx = false ->
     r_field_begin p (mkS (flat ss ++ r) rcx) = Ok ((ty, Some id), mkS r (rlast_upd p id rcx)).
 Proof.
   intros Hnb Hns Hok Hid Hp Hl.
   destruct p; cbn [w_field_begin wlast_upd rlast_upd].
-  1,2: eexists; split; [apply wret_eq|]; split; [rewrite flat_copy; cbn; lia|]; intros r rcx _;
+  1,2: eexists; split; [apply wret_eq|]; split; [rewrite flat_copy; cbn; lia|]; intros r rcx _ _;
        rewrite flat_copy; cbn [app r_field_begin]; rewrite r_ttype_rt; cbn [bind];
        (destruct ty; try congruence);
        match goal with |- context [fx ?p 2 _] =>
@@ -219,10 +229,10 @@ Proof.
   cbn [w_field_begin] in Hw. rewrite Hw. clear Hw.
   destruct (w_field_header_ok ct id c Hid (Hl eq_refl)) as (ss & Hw & Hlen & Hr).
   exists ss. rewrite Hp in Hw. split; [rewrite Hp; exact Hw|]. split; [exact Hlen|].
-  intros r rcx Hlast. specialize (Hlast eq_refl).
+  intros r rcx Hlast Hpf. specialize (Hlast eq_refl).
   destruct (Hr r) as (r' & delta & Hb & Hd & Hnz & Hz). rewrite Hb.
   destruct (ctype_nonbool _ _ Hct Hnb) as [N1 N2].
-  rewrite (r_field_begin_compact_nonbool ct ty delta r' rcx (ctype_ttype_inv _ _ Hct) Hns N1 N2 Hd).
+  rewrite (r_field_begin_compact_nonbool ct ty delta r' rcx (ctype_ttype_inv _ _ Hct) Hns N1 N2 Hd Hpf).
   destruct (Z.eqb_spec delta 0) as [D0|Dn]; cbn [negb].
   - rewrite (Hz D0). cbn [bind set_rc rc rbuf]. reflexivity.
   - destruct (Hnz Dn) as [-> Hwr]. rewrite Hlast, Hwr. reflexivity.
@@ -250,7 +260,7 @@ Proof.
     intros r rcx Hlast [Hb Hf].
     destruct (Hr r) as (r' & delta & Hbytes & Hd & Hnz & Hz). rewrite Hbytes.
     pose proof (ctype_code_range ct) as Hc.
-    cbn [r_field_begin]. rewrite r_byte_rt by lia. cbn [bind].
+    cbn [r_field_begin]. rewrite (clear_pfield_nop _ _ Hf). rewrite r_byte_rt by lia. cbn [bind].
     replace ((delta * 16 + ctype_code ct) mod 16) with (ctype_code ct) by lia.
     replace ((delta * 16 + ctype_code ct) / 16) with delta by lia.
     cbn [w_last] in Hnz.
@@ -268,12 +278,21 @@ Qed.
 (* ---- stop / struct begin / struct end ---- *)
 Lemma w_field_stop_ok p c : w_pend c = None ->
   w_field_stop p c = Ok ([Copy [x00]], c) /\
-  forall r rcx, exists oid, r_field_begin p (mkS (x00 :: r) rcx) = Ok ((TStop, oid), mkS r rcx).
+  forall r rcx, r_pfield rcx = false -> exists oid, r_field_begin p (mkS (x00 :: r) rcx) = Ok ((TStop, oid), mkS r rcx).
 Proof.
   intros Hp. split.
   - unfold w_field_stop, wseq, assert_no_pending_w. rewrite Hp. destruct p; reflexivity.
-  - intros r rcx. destruct p; eexists; reflexivity.
+  - intros r rcx Hpf. destruct p; eexists; cbn [r_field_begin]; rewrite ?(clear_pfield_nop _ _ Hpf); reflexivity.
 Qed.
+
+(* the stop byte from ANY reader context: under compact the pending bool field announcement is dropped *)
+Definition clrp (p : pk) (c : rctx) : rctx :=
+  match p with PCompact => mkR (r_last c) (r_stack c) (r_pbool c) false | _ => c end.
+Lemma r_field_begin_stop p r rcx :
+  exists oid, r_field_begin p (mkS (x00 :: r) rcx) = Ok ((TStop, oid), mkS r (clrp p rcx)).
+Proof. destruct p; eexists; reflexivity. Qed.
+Lemma clrp_idle p c : r_pfield c = false -> clrp p c = c.
+Proof. destruct p; auto. destruct c as [a b d e]. cbn. intros ->. reflexivity. Qed.
 
 Lemma w_field_end_ok p c : w_pend c = None -> w_field_end p c = Ok ([], c).
 Proof. intros Hp. unfold w_field_end, assert_no_pending_w. rewrite Hp. destruct p; reflexivity. Qed.
